@@ -22,7 +22,7 @@
    C14_never_partial_of_served_version / C14_not_empty_of_served_version say what still holds of whichever
    version is served (also on a table without a usable pointer, which C10 makes a legitimate state). *)
 From Coq Require Import ZArith NArith List Bool String.
-Require Import DS.Gen.GenRead DS.Model.Read DS.Proofs.ReadProofs.
+Require Import DS.Gen.GenRead DS.Model.Read DS.Proofs.ReadProofs DS.Model.ReadBlocks DS.Proofs.ReadBlocksProofs.
 Import ListNotations.
 Open Scope list_scope.
 Open Scope Z_scope.
@@ -201,6 +201,68 @@ Theorem C14_batched_guard_complete : forall (handed groups : list (list row)) (r
   rows = List.concat groups.
 Proof. exact batched_guard_complete. Qed.
 Print Assumptions C14_batched_guard_complete.
+
+(* ---------------------------------------------------------------------------------------------
+   Containers are decoded BLOCK BY BLOCK (Model/ReadBlocks.v): the decoder hands out the records of the leading
+   blocks before it meets a block it cannot decode.  The reader's loop returns all records of all blocks or raises:
+   whatever the number of blocks, their sizes and the position of the damaged one, a returned list is never the
+   records of the leading blocks only. *)
+Theorem C14_blocks_all_or_nothing : forall (A : Type) (bs : list (blk A)) (xs : list A),
+  collect bs = AvOk xs -> forallb good bs = true /\ xs = all_records bs.
+Proof. exact collect_all_or_nothing. Qed.
+Print Assumptions C14_blocks_all_or_nothing.
+
+(* ... and the exception is the one of the FIRST bad block, however many records were handed out before it -- those of
+   the blocks before ([pre]) and those of the bad block itself that precede its damage ([p]). *)
+Theorem C14_blocks_raise_at_first_bad_block : forall (A : Type) (pre : list (blk A)) (p : list A) (m : list string) (tl : list (blk A)),
+  forallb good pre = true -> collect (pre ++ BBad p m :: tl) = AvRaise m.
+Proof. exact collect_raises_at_first_bad_block. Qed.
+Print Assumptions C14_blocks_raise_at_first_bad_block.
+
+(* Through the whole pipeline: a manifest (a manifest list) reachable from the current snapshot with ONE undecodable
+   block anywhere -- first, last, in between; any number of good blocks and records before it -- and bytes the JSON
+   fallback rejects: every read API raises, with every option. *)
+Theorem C14_bad_manifest_block_fails_closed :
+  forall (E : env) (lb : bytes -> list (blk (option key))) (mb : bytes -> list (blk dfile)) (st : store) (a : api) (o : opts) (k : key) (b : bytes),
+  json_not_avro (with_block_decoders E lb mb) ->
+  reach (with_block_decoders E lb mb) st RManifest k ->
+  st k = Present b -> forallb good (mb b) = false -> json_man E b = None ->
+  exists e, out (read_current (with_block_decoders E lb mb) st a o) = Err e.
+Proof. exact bad_manifest_block_fails_closed. Qed.
+Print Assumptions C14_bad_manifest_block_fails_closed.
+
+Theorem C14_bad_list_block_fails_closed :
+  forall (E : env) (lb : bytes -> list (blk (option key))) (mb : bytes -> list (blk dfile)) (st : store) (a : api) (o : opts) (k : key) (b : bytes),
+  json_not_avro (with_block_decoders E lb mb) ->
+  reach (with_block_decoders E lb mb) st RList k ->
+  st k = Present b -> forallb good (lb b) = false -> json_list E b = None ->
+  exists e, out (read_current (with_block_decoders E lb mb) st a o) = Err e.
+Proof. exact bad_list_block_fails_closed. Qed.
+Print Assumptions C14_bad_list_block_fails_closed.
+
+(* A handle that remembers decoded manifests between calls (the pinned read path has no such component; this is what
+   any such component has to satisfy): a cache that registers only the result of a decode that ran to the END is
+   invisible -- through any sequence of decodes of any byte strings (failing ones, repeated ones, in any order) every
+   outcome is the outcome of decoding afresh; in particular a decode that raised raises again, and nothing a failed
+   decode had gathered is ever served.  (Keyed by the identity of the bytes: a stamp that determines the content.) *)
+Theorem C14_decode_cache_transparent : forall (dec : bytes -> avro (list dfile)) (reads : list bytes),
+  fst (run_decodes dec [] reads) = map dec reads.
+Proof. exact cache_transparent. Qed.
+Print Assumptions C14_decode_cache_transparent.
+
+(* ... whereas registering the entry BEFORE decoding and filling it record by record is not: one manifest of three
+   blocks, the second undecodable, read twice -- the second read returns the entries handed out before the failure. *)
+Theorem C14_eager_decode_cache_refuted : ~ eager_transparent.
+Proof. exact eager_refuted. Qed.
+Print Assumptions C14_eager_decode_cache_refuted.
+
+Example C14_blocks_nonvacuous :
+  collect w_blocks_sample = AvRaise ["EOFError"; "Exception"]%string
+  /\ fst (stream w_blocks_sample) = [w_df 8%N; w_df 7%N]
+  /\ fst (run_eager w_blocks [] [5%N; 5%N]) = [AvRaise ["EOFError"; "Exception"]%string; AvOk [w_df 8%N; w_df 7%N]]
+  /\ fst (run_decodes (fun b => collect (w_blocks b)) [] [5%N; 5%N]) = [AvRaise ["EOFError"; "Exception"]%string; AvRaise ["EOFError"; "Exception"]%string]
+  /\ collect [BGood [w_df 8%N]; BGood []; BGood [w_df 9%N]] = AvOk [w_df 8%N; w_df 9%N].
+Proof. repeat split; vm_compute; reflexivity. Qed.
 
 (* The model does not raise without cause (so the theorems above are not satisfied by a pipeline that
    always fails): with no transient fault anywhere, metadata that resolves, a complete answer on the
